@@ -277,6 +277,11 @@ CHECKS = {
     technique='runtime monitoring: differential (phrase_from_file/2,3 on a file vs phrase/2 on the full character list) with all solutions of both sides compared inside the machine',
     text='Files of 0 to 12289 characters (ASCII, newlines, 2/3/4-byte characters, and non-UTF-8 bytes read with type(binary)), sized around the 4096-character steps of the lazy list and with needles placed before, on and after the step boundaries, are parsed with 14 grammar bodies (whole text, counting with cuts, all splits at a newline, substring search with backtracking, first/last character, if-then-else, negation, failure after a full scan, early failure, split at a fixed length, pushback lookahead over a step boundary, nested phrase on a prefix); the list of all solutions of phrase_from_file/2,3 must be identical (==) to the list of all solutions of phrase/2 on the same text.',
     note='NUL bytes and C1 control characters are not used in type(binary) contents (the harness could not pass such literals through the query reader).'),
+ 'C40': dict(
+    level='exploration',
+    technique='runtime monitoring: metamorphic monitor over limits (reproducibility, monotonicity, sharp threshold found by binary search) plus reference answers, nesting and leftover-state probes',
+    text="For 10 goal families with known answers (deterministic recursion, naive reverse, member/between enumerations, failing goals, cuts, if-then-else, inner findall, arithmetic) the outcome list of call_with_inference_limit/3 is observed at 12-22 limits per goal: the threshold below which the limit is exceeded must be sharp, every outcome must repeat on the same machine and on a second machine, answers at a smaller limit must be a prefix of those at a larger one and equal the unrestricted answers from the threshold on; a nested limit must not hide the inner goal's inferences from the outer count, work after an exceeded inner limit must run, an exception inside must propagate, an infinite loop must be stopped, and a reference goal's threshold is re-measured after every family (no leftover state).",
+    note='true vs ! in the result argument is not asserted; a nested call may add a constant overhead of at most 200 inferences.'),
 }
 
 NOT_APPLICABLE_REASON_UNBUILT = ('check designed in DESIGN.md but not built/validated yet in this session; '
